@@ -282,6 +282,27 @@ def sub_built(ctx, shard, n):
     ctx.enumerate("named", check_named, sorted(NAMED) + ["base_values", "base_triplets", "base_quintuplets", "base_septuplets"])
 
 
+def check_whole(ctx, n):
+    """a whole number (written as an int and as a float) that lies within 1% of exactly one undotted or single-dotted recognised
+    value is analysed as that value - also when it is not itself a recognised value (85 is within 1% of the dotted 128th, 256/3)"""
+    from fractions import Fraction
+    hits = []
+    for c in V.NEAR_CENTRES:
+        base, dots, p, q = V.key(c)
+        v = Fraction(V.value(base, dots, p, q))
+        if abs(Fraction(n) / v - 1) <= Fraction(99, 10000):
+            hits.append((base, dots, p, q))
+    if len(hits) != 1:
+        return ctx.note_case(False, ["whole:no-single-centre"])
+    base, dots, p, q = hits[0]
+    for x in (n, float(n)):
+        r = ctx.ok("determine", value.determine, x)
+        if not failed(r):
+            ctx.check(_analysis_is(r, base, dots, p, q), "determine/near", lambda: "determine(%r) -> %r; %r is within 1%% of %r" % (x, r, x, hits[0]))
+    ctx.note_case(True, ["whole:" + ("dotted" if dots else "plain" if (p, q) == (1, 1) else "tuplet")])
+
+
+CHECKS["whole"] = check_whole
 NEAR_E = [0.0, 0.001, -0.001, 0.005, -0.005, 0.01, -0.01]
 
 
@@ -290,6 +311,8 @@ def sub_near(ctx, shard, n):
     if shard == 0:
         ctx.exhaustive("perturbed values: 50 undotted/single-dotted centres x listed e", "e in %r" % NEAR_E, len(centres) * len(NEAR_E))
         ctx.enumerate("near", check_near, [c + [e] for c in centres for e in NEAR_E])
+        ctx.exhaustive("whole numbers 1..400 (int and float) within 1% of a recognised value", "400", 400)
+        ctx.enumerate("whole", check_whole, list(range(1, 401)))
         # many-dotted values of the next longer base: 6 dots and more fall inside the 1% window of an undotted value
         ctx.enumerate("near", check_near, [c + [["dots", k]] for c in centres if c[1] == 0 and (c[2], c[3]) == (1, 1) for k in range(5, 13)])
     es = st.floats(-0.01, 0.01, allow_nan=False) | st.floats(-0.01, -0.001) | st.floats(0.001, 0.01)
